@@ -26,6 +26,8 @@ enum Prefixing {
     TnsClash,
     /// unprefixed through xmlns="A"
     Default,
+    /// the start file's default namespace is the IMPORTED namespace; unprefixed names denote B
+    DefaultIsImported,
 }
 
 fn build(kind: Kind, target_b: bool, prefixing: Prefixing, user_first: bool, decoys: bool) -> SchemaSet {
@@ -40,11 +42,17 @@ fn build(kind: Kind, target_b: bool, prefixing: Prefixing, user_first: bool, dec
         s.files[0].default_ns = Some(NS_A.into());
         s.files[1].default_ns = Some(NS_B.into());
     }
+    if prefixing == Prefixing::DefaultIsImported {
+        s.files[0].default_ns = Some(NS_B.into());
+    }
     s.files[0].comps.clear();
     s.files[1].comps.clear();
     // carriers of the name `Thing`
     let type_a = complex("Thing", vec![el("MarkTypeA", TypeRef::b("string"))]);
-    let type_b = complex("Thing", vec![el("MarkTypeB", TypeRef::b("string")), el("MarkTypeB2", TypeRef::b("int"))]);
+    // B's Thing has a member typed by B's own `Part`; A declares a `Part` as well
+    let type_b = complex("Thing", vec![el("MarkTypeB", TypeRef::b("string")), el("MarkTypeB2", TypeRef::b("int")), el("UsesPart", TypeRef::n(NS_B, "Part"))]);
+    let part_a = complex("Part", vec![el("MarkPartA", TypeRef::b("string"))]);
+    let part_b = complex("Part", vec![el("MarkPartB", TypeRef::b("long"))]);
     let elem_a = anon_element("Thing", vec![el("MarkElemA", TypeRef::b("string"))]);
     let elem_b = anon_element("Thing", vec![el("MarkElemB", TypeRef::b("string"))]);
     let decoy = Comp::Complex(ComplexType {
@@ -55,10 +63,10 @@ fn build(kind: Kind, target_b: bool, prefixing: Prefixing, user_first: bool, dec
     });
     // B uses its own Thing through its own prefix (tns in the clash situation)
     let uses_own_b = complex("UsesOwnB", vec![el("OwnThing", TypeRef::n(NS_B, "Thing")), Particle::Ref(ElemRef { target: QName::new(NS_B, "Thing"), min: 0, max: Max::N(1) })]);
-    s.files[1].comps.extend([type_b, elem_b, uses_own_b]);
+    s.files[1].comps.extend([part_b, type_b, elem_b, uses_own_b]);
     let tns = if target_b { NS_B } else { NS_A };
     let mut q = QName::new(tns, "Thing");
-    if prefixing == Prefixing::Default && !target_b {
+    if (prefixing == Prefixing::Default && !target_b) || (prefixing == Prefixing::DefaultIsImported && target_b) {
         q.prefer = Some(String::new());
     }
     let user = match kind {
@@ -66,7 +74,7 @@ fn build(kind: Kind, target_b: bool, prefixing: Prefixing, user_first: bool, dec
         Kind::Base => Comp::Complex(ComplexType { name: "User".into(), base: Some(q), seq: Some(Seq::of(vec![el("UserMark", TypeRef::b("string"))])), ..Default::default() }),
         Kind::Ref => complex("User", vec![Particle::Ref(ElemRef { target: q, min: 1, max: Max::N(1) }), el("UserMark", TypeRef::b("string"))]),
     };
-    let mut a_comps = vec![];
+    let mut a_comps = vec![part_a];
     if decoys {
         a_comps.push(decoy);
     }
@@ -85,7 +93,7 @@ fn xsd_states() -> Vec<(State, Vec<(&'static str, String)>)> {
     let mut out = vec![];
     for kind in [Kind::Type, Kind::Base, Kind::Ref] {
         for target_b in [false, true] {
-            for prefixing in [Prefixing::Own, Prefixing::TnsClash, Prefixing::Default] {
+            for prefixing in [Prefixing::Own, Prefixing::TnsClash, Prefixing::Default, Prefixing::DefaultIsImported] {
                 if prefixing == Prefixing::Default && target_b {
                     // B is reached through its prefix while A is the default namespace: keep (mixed)
                 }
